@@ -399,7 +399,7 @@ func parseContracts(text string) (*ContractFile, error) {
 		switch word {
 		case "func":
 			// func Key[T,U](a, b)
-			c := &Contract{Modifies: map[string]bool{}, Loops: map[int]*LoopContract{}, Line: ln + 1, Mode: "abstract", Theory: "axioms"}
+			c := &Contract{Modifies: map[string]bool{}, Loops: map[int]*LoopContract{}, Line: ln + 1, Mode: "abstract", Theory: "opaque"}
 			sig := rest
 			op := strings.IndexByte(sig, '(')
 			if op < 0 {
